@@ -79,7 +79,26 @@ def run(tier, seed, replay=None):
                     data = open(p, "rb").read()
                     lead = b"# caf\xe9 \xff\n" if comps[-1].endswith(".py") else b"// caf\xe9 \xff\n"
                     open(p, "wb").write(data + lead)
+            # a lone carriage return as a line break inside some files (text-mode reading turns it into a line break)
+            for comps, x in files:
+                if x >= 3 and rng.random() < 0.12 and comps[-1].endswith((".py", ".js", ".c", ".ts", ".cpp")):
+                    p = os.path.join(root, *comps)
+                    data = open(p, "rb").read()
+                    k = data.find(b"\n", len(data) // 2)
+                    if k > 0 and b"\xff" not in data:
+                        open(p, "wb").write(data[:k] + b"\r" + data[k + 1:])
             cfg = rng.sample(c11.PATTERN_POOL, rng.choice([0, 0, 1, 2])) + c11.derived_patterns(rng, nodes)
+            # negated patterns that re-include one file beneath an excluded directory (the Coq matcher does not model
+            # negation: those trees are judged against scan only)
+            negated = False
+            if rng.random() < 0.3:
+                import pathspec
+                sp0 = pathspec.PathSpec.from_lines("gitignore", list(Scanner.DEFAULT_EXCLUDES) + cfg)
+                hit = [comps for comps, _ in files if len(comps) >= 2 and sp0.match_file("/".join(comps))
+                       and not any(c.startswith(".") for c in comps)]
+                if hit:
+                    cfg.append("!" + "/".join(rng.choice(hit)))
+                    negated = True
             gi = rng.sample(c11.PATTERN_POOL, rng.choice([0, 0, 1]))
             if gi:
                 with open(os.path.join(root, ".gitignore"), "w") as f:
@@ -145,7 +164,7 @@ def run(tier, seed, replay=None):
                         probs.append(f"exit status {code}")
                     if probs:
                         chk.violation({**case, "file": rel, "way": way}, "; ".join(probs))
-                    if not way.startswith("absolute") and len(model_args) < 6:
+                    if not way.startswith("absolute") and len(model_args) < 6 and not negated:
                         # contents with appended non-UTF-8 comment lines do not change the analysis result
                         model_args.append((marg, got))
             Configuration.exclude = []
